@@ -62,3 +62,625 @@ Proof.
   destruct (e_term e =? t) eqn:E3; [|left; congruence].
   right. exists e. repeat split; auto; try lia. congruence.
 Qed.
+
+(* ------------------------------------------------------------------ *)
+(* lists of entries                                                    *)
+
+Lemma esize_pos e : 0 < esize e.
+Proof. unfold esize, c19_entry_non_cmd_fields_size. lia. Qed.
+Opaque esize.
+
+Lemma nlen_app {A} (a b : list A) : nlen (a ++ b) = nlen a + nlen b.
+Proof. unfold nlen. rewrite app_length. lia. Qed.
+Lemma nlen_nil {A} : nlen (@nil A) = 0. Proof. reflexivity. Qed.
+Lemma nlen_cons {A} (x : A) l : nlen (x :: l) = 1 + nlen l.
+Proof. unfold nlen. cbn [length]. lia. Qed.
+Lemma nlen_firstn {A} n (l : list A) : nlen (firstn n l) = N.min (N.of_nat n) (nlen l).
+Proof. unfold nlen. rewrite firstn_length. lia. Qed.
+Lemma nlen_skipn {A} n (l : list A) : nlen (skipn n l) = nlen l - N.of_nat n.
+Proof. unfold nlen. rewrite skipn_length. lia. Qed.
+
+Lemma nth_error_skipn {A} n k (l : list A) : nth_error (skipn n l) k = nth_error l (n + k).
+Proof.
+  revert l. induction n; intros l; cbn; auto. destruct l; cbn; auto. destruct k; auto.
+Qed.
+Lemma nth_error_firstn_lt {A} n k (l : list A) : (k < n)%nat -> nth_error (firstn n l) k = nth_error l k.
+Proof.
+  revert k l. induction n; intros k l H; [lia|]. destruct l; cbn; [destruct k; auto|].
+  destruct k; cbn; auto. apply IHn. lia.
+Qed.
+Lemma nth_error_firstn_ge {A} n k (l : list A) : (n <= k)%nat -> nth_error (firstn n l) k = None.
+Proof. intros H. apply nth_error_None. rewrite firstn_length. lia. Qed.
+
+Lemma last_entry_nth l : l <> [] -> nth_error l (length l - 1) = Some (last_entry l).
+Proof.
+  unfold last_entry. induction l as [|a l IH]; [congruence|]. intros _.
+  destruct l as [|b l']; [reflexivity|].
+  replace (length (a :: b :: l') - 1)%nat with (S (length (b :: l') - 1)) by (cbn; lia).
+  cbn [nth_error]. rewrite IH by congruence. reflexivity.
+Qed.
+Lemma last_entry_app a b : b <> [] -> last_entry (a ++ b) = last_entry b.
+Proof.
+  intros H. unfold last_entry. induction a as [|x a IH]; [reflexivity|].
+  cbn [app]. destruct (a ++ b) eqn:E; [destruct a; destruct b; cbn in E; congruence|].
+  exact IH.
+Qed.
+
+(* a well-formed run of entries starting at index [base]: contiguous indexes,
+   terms >= 1 and non-decreasing *)
+Definition log_ok (base : N) (l : list entry) : Prop :=
+  forall k e, nth_error l k = Some e ->
+    e_index e = base + N.of_nat k /\ 1 <= e_term e /\
+    forall k' e', (k <= k')%nat -> nth_error l k' = Some e' -> e_term e <= e_term e'.
+
+Lemma log_ok_nil b : log_ok b []. Proof. intros k e H. destruct k; discriminate. Qed.
+
+Lemma log_ok_firstn b n l : log_ok b l -> log_ok b (firstn n l).
+Proof.
+  intros H k e Hk. destruct (Nat.lt_ge_cases k n) as [Hl|Hl].
+  - rewrite nth_error_firstn_lt in Hk by auto. destruct (H k e Hk) as (A & B & C). repeat split; auto.
+    intros k' e' Hle Hk'. destruct (Nat.lt_ge_cases k' n) as [Hl'|Hl'].
+    + rewrite nth_error_firstn_lt in Hk' by auto. eauto.
+    + rewrite nth_error_firstn_ge in Hk' by auto. discriminate.
+  - rewrite nth_error_firstn_ge in Hk by auto. discriminate.
+Qed.
+
+Lemma log_ok_skipn b n l : log_ok b l -> log_ok (b + N.of_nat n) (skipn n l).
+Proof.
+  intros H k e Hk. rewrite nth_error_skipn in Hk. destruct (H _ _ Hk) as (A & B & C).
+  repeat split; auto; try lia. intros k' e' Hle Hk'. rewrite nth_error_skipn in Hk'.
+  apply (C (n + k')%nat); auto. lia.
+Qed.
+
+Lemma log_ok_app b a c :
+  log_ok b a -> log_ok (b + nlen a) c ->
+  (a <> [] -> c <> [] -> e_term (last_entry a) <= e_term (hd dummy_entry c)) ->
+  log_ok b (a ++ c).
+Proof.
+  intros Ha Hc Hj k e Hk. destruct (Nat.lt_ge_cases k (length a)) as [Hl|Hl].
+  - rewrite nth_error_app1 in Hk by auto. destruct (Ha _ _ Hk) as (A & B & C). repeat split; auto.
+    intros k' e' Hle Hk'. destruct (Nat.lt_ge_cases k' (length a)) as [Hl'|Hl'].
+    + rewrite nth_error_app1 in Hk' by auto. eauto.
+    + rewrite nth_error_app2 in Hk' by auto.
+      assert (Hane : a <> []) by (destruct a; cbn in Hl; [lia|congruence]).
+      assert (Hcne : c <> []) by (destruct c; [destruct (k' - length a)%nat; discriminate|congruence]).
+      specialize (Hj Hane Hcne).
+      pose proof (last_entry_nth a Hane) as Hla.
+      assert (e_term e <= e_term (last_entry a)) by (apply (C (length a - 1)%nat); auto; lia).
+      assert (Hc0 : nth_error c 0 = Some (hd dummy_entry c)) by (destruct c; [congruence|reflexivity]).
+      destruct (Hc _ _ Hc0) as (_ & _ & C0).
+      assert (e_term (hd dummy_entry c) <= e_term e') by (apply (C0 (k' - length a)%nat); auto; lia).
+      lia.
+  - rewrite nth_error_app2 in Hk by auto. destruct (Hc _ _ Hk) as (A & B & C). unfold nlen in A.
+    repeat split; auto; try lia. intros k' e' Hle Hk'. rewrite nth_error_app2 in Hk' by lia.
+    apply (C (k' - length a)%nat); auto. lia.
+Qed.
+
+Lemma log_ok_last b l : log_ok b l -> l <> [] -> e_index (last_entry l) = b + nlen l - 1.
+Proof.
+  intros H Hne. destruct (H _ _ (last_entry_nth l Hne)) as (A & _). rewrite A. unfold nlen.
+  destruct l; [congruence|]. cbn [length]. lia.
+Qed.
+
+Lemma log_ok_hd b e l : log_ok b (e :: l) -> e_index e = b.
+Proof. intros H. destruct (H 0%nat e eq_refl) as (A & _). lia. Qed.
+
+(* from the boolean checks of wf_op *)
+Lemma bool_log_ok b t l :
+  contiguous_from b l = true -> terms_from t l = true -> 1 <= t ->
+  log_ok b l /\ forall e, In e l -> t <= e_term e.
+Proof.
+  revert b t. induction l as [|x l IH]; intros b t Hc Ht H1.
+  - split; [apply log_ok_nil|]. intros e [].
+  - cbn in Hc, Ht. apply andb_true_iff in Hc as [Hc1 Hc2]. apply andb_true_iff in Ht as [Ht1 Ht2].
+    destruct (IH (b + 1) (e_term x) Hc2 Ht2) as [IH1 IH2]; [lia|]. split.
+    + intros k e Hk. destruct k as [|k].
+      * cbn in Hk. inversion Hk; subst e. repeat split; try lia.
+        intros k' e' _ Hk'. destruct k'; cbn in Hk'; [inversion Hk'; lia|].
+        apply IH2. eapply nth_error_In; eauto.
+      * cbn in Hk. destruct (IH1 _ _ Hk) as (A & B & C). repeat split; try lia.
+        intros k' e' Hle Hk'. destruct k'; [lia|]. cbn in Hk'. apply (C k'); auto. lia.
+    + intros e [->|Hin]; [lia|]. specialize (IH2 _ Hin). lia.
+Qed.
+
+(* ------------------------------------------------------------------ *)
+(* the invariant tying the faithful model to the logical log           *)
+
+Record SI (sp : spec) : Prop := {
+  si_log : log_ok (sp_mi sp + 1) (sp_ents sp);
+  si_mp : sp_mi sp <= sp_processed sp;
+  si_pc : sp_processed sp <= sp_committed sp;
+  si_cl : sp_committed sp <= sp_last sp;
+  si_ps : sp_processed sp <= sp_saved sp;
+  si_sl : sp_saved sp <= sp_last sp;
+  si_snap : sp_snap sp = true -> sp_saved sp = sp_mi sp /\ 1 <= sp_mi sp;
+  si_max : sp_last sp < max_index;
+  si_pers : sp_persisted sp = true -> sp_pend sp <> None }.
+
+(* how far the store/reader are known to hold the current entries *)
+Definition cover (sp : spec) : N := if sp_persisted sp then sp_last sp else sp_saved sp.
+(* the reader reflects the logical marker (not between a restore and its persistence) *)
+Definition rd_ok (sp : spec) : bool := negb (sp_snap sp) || sp_persisted sp.
+
+Definition ud_rel (sp : spec) (ud : update) (p : spend) : Prop :=
+  ud_save ud = sp_to_save sp /\
+  match spd_save_last p with
+  | Some (i, t) => uc_stable_to (ud_uc ud) = i /\ uc_stable_term (ud_uc ud) = t /\ i = sp_last sp
+                   /\ t = sp_term sp i /\ sp_saved sp < sp_last sp
+  | None => uc_stable_to (ud_uc ud) = 0 /\ sp_saved sp = sp_last sp
+  end /\
+  uc_processed (ud_uc ud) = spd_processed p /\
+  (spd_processed p = 0 \/ (sp_processed sp <= spd_processed p /\ spd_processed p <= sp_committed sp)) /\
+  uc_last_applied (ud_uc ud) <= sp_processed sp /\
+  spd_snap p = sp_snap sp /\
+  uc_stable_snap (ud_uc ud) = (if sp_snap sp then sp_mi sp else 0) /\
+  ud_snap ud = (if sp_snap sp then Some (sp_mi sp, sp_mt sp) else None).
+
+Record R (w : world) (sp : spec) : Prop := {
+  r_si : SI sp;
+  r_c : el_committed (w_el w) = sp_committed sp;
+  r_p : el_processed (w_el w) = sp_processed sp;
+  r_s : im_saved (el_im (w_el w)) = sp_saved sp;
+  r_m1 : sp_mi sp + 1 <= im_marker (el_im (w_el w));
+  r_m2 : im_marker (el_im (w_el w)) <= sp_saved sp + 1;
+  r_ents : im_ents (el_im (w_el w)) = skipn (N.to_nat (im_marker (el_im (w_el w)) - sp_mi sp - 1)) (sp_ents sp);
+  r_snap : im_snap (el_im (w_el w)) = if sp_snap sp then Some (sp_mi sp, sp_mt sp) else None;
+  r_a1 : im_aidx (el_im (w_el w)) <= sp_committed sp;
+  r_a2 : im_aidx (el_im (w_el w)) <> 0 -> sp_mi sp <= im_aidx (el_im (w_el w)) ->
+         im_aterm (el_im (w_el w)) = sp_term sp (im_aidx (el_im (w_el w))) /\ im_aterm (el_im (w_el w)) <> 0;
+  r_lr : rd_ok sp = true ->
+         lr_marker (w_lr w) = sp_mi sp /\ lr_mterm (w_lr w) = sp_mt sp /\ 1 <= lr_len (w_lr w)
+         /\ cover sp <= lr_last (w_lr w) /\ (cover sp = sp_last sp -> lr_last (w_lr w) = sp_last sp);
+  r_st : forall i, sp_mi sp < i -> i <= cover sp -> st_get (w_st w) i = sp_get sp i;
+  r_stmax : sp_mi sp < cover sp -> cover sp <= st_max (w_st w);
+  r_ss : lr_ssidx (w_lr w) <= sp_mi sp /\ (rd_ok sp = false -> lr_ssidx (w_lr w) < sp_mi sp);
+  r_q : match sp_pend sp with
+        | None => w_queue w = []
+        | Some p => exists ud, w_queue w = [mkPend ud (sp_persisted sp)] /\ ud_rel sp ud p
+        end }.
+
+(* ---- consequences used everywhere ---- *)
+Section Facts.
+  Variables (w : world) (sp : spec).
+  Hypothesis HR : R w sp.
+  Local Notation im := (el_im (w_el w)).
+
+  Lemma f_off : N.to_nat (im_marker im - sp_mi sp - 1) = (N.to_nat (im_marker im) - N.to_nat (sp_mi sp) - 1)%nat.
+  Proof. lia. Qed.
+
+  Lemma f_len : im_marker im + nlen (im_ents im) = sp_last sp + 1.
+  Proof.
+    rewrite (r_ents _ _ HR). rewrite nlen_skipn. unfold sp_last.
+    pose proof (r_m1 _ _ HR). pose proof (r_m2 _ _ HR). pose proof (si_sl _ (r_si _ _ HR)).
+    unfold sp_last in *. lia.
+  Qed.
+
+  Lemma f_nth k : nth_error (im_ents im) k = nth_error (sp_ents sp) (N.to_nat (im_marker im - sp_mi sp - 1) + k).
+  Proof. rewrite (r_ents _ _ HR). apply nth_error_skipn. Qed.
+
+  Lemma f_get i : im_marker im <= i -> nth_error (im_ents im) (N.to_nat (i - im_marker im)) = sp_get sp i.
+  Proof.
+    intros H. rewrite f_nth. unfold sp_get. pose proof (r_m1 _ _ HR).
+    destruct (i <=? sp_mi sp) eqn:E; [lia|]. f_equal. lia.
+  Qed.
+
+  Lemma f_log : log_ok (im_marker im) (im_ents im).
+  Proof.
+    rewrite (r_ents _ _ HR). pose proof (r_m1 _ _ HR).
+    replace (im_marker im) with (sp_mi sp + 1 + N.of_nat (N.to_nat (im_marker im - sp_mi sp - 1))) at 1 by lia.
+    apply log_ok_skipn. apply (si_log _ (r_si _ _ HR)).
+  Qed.
+
+  Lemma f_nil : im_ents im = [] -> im_marker im = sp_last sp + 1.
+  Proof. intros H. pose proof f_len as L. rewrite H in L. rewrite nlen_nil in L. lia. Qed.
+
+  Lemma f_last_entry : im_ents im <> [] -> e_index (last_entry (im_ents im)) = sp_last sp.
+  Proof. intros H. rewrite (log_ok_last _ _ f_log H). pose proof f_len. lia. Qed.
+End Facts.
+
+Lemma sp_get_some sp i e : SI sp -> sp_get sp i = Some e ->
+  e_index e = i /\ 1 <= e_term e /\ sp_mi sp < i /\ i <= sp_last sp.
+Proof.
+  intros HS H. unfold sp_get in H. destruct (i <=? sp_mi sp) eqn:E; [discriminate|].
+  destruct (si_log _ HS _ _ H) as (A & B & _).
+  assert (N.to_nat (i - sp_mi sp - 1) < length (sp_ents sp))%nat by (apply nth_error_Some; congruence).
+  unfold sp_last, nlen. repeat split; lia.
+Qed.
+
+Lemma sp_get_in sp i : SI sp -> sp_mi sp < i -> i <= sp_last sp -> exists e, sp_get sp i = Some e.
+Proof.
+  intros HS H1 H2. unfold sp_get. destruct (i <=? sp_mi sp) eqn:E; [lia|].
+  destruct (nth_error (sp_ents sp) (N.to_nat (i - sp_mi sp - 1))) eqn:E2; eauto.
+  apply nth_error_None in E2. unfold sp_last, nlen in H2. lia.
+Qed.
+
+Lemma sp_get_none sp i : sp_last sp < i -> sp_get sp i = None.
+Proof.
+  intros H. unfold sp_get. destruct (i <=? sp_mi sp); auto. apply nth_error_None. unfold sp_last, nlen in H. lia.
+Qed.
+
+(* ------------------------------------------------------------------ *)
+(* the views                                                           *)
+
+Lemma v_first w sp : R w sp -> el_first (w_el w) (w_lr w) = sp_first sp.
+Proof.
+  intros HR. unfold el_first, im_snap_index, sp_first. rewrite (r_snap _ _ HR).
+  destruct (sp_snap sp) eqn:E; [reflexivity|].
+  destruct (r_lr _ _ HR) as (A & _); [unfold rd_ok; rewrite E; reflexivity|]. unfold lr_first. lia.
+Qed.
+
+Lemma cover_ge_saved sp : SI sp -> sp_saved sp <= cover sp.
+Proof. intros HS. unfold cover. destruct (sp_persisted sp); [apply (si_sl _ HS)|lia]. Qed.
+Lemma cover_le_last sp : SI sp -> cover sp <= sp_last sp.
+Proof. intros HS. unfold cover. destruct (sp_persisted sp); [lia|apply (si_sl _ HS)]. Qed.
+
+Lemma v_last w sp : R w sp -> el_last (w_el w) (w_lr w) = sp_last sp.
+Proof.
+  intros HR. unfold el_last, im_last_index.
+  destruct (im_ents (el_im (w_el w))) eqn:E.
+  - pose proof (f_nil _ _ HR E) as Hm. pose proof (r_m2 _ _ HR) as M2.
+    pose proof (si_sl _ (r_si _ _ HR)) as SL.
+    unfold im_snap_index. rewrite (r_snap _ _ HR). destruct (sp_snap sp) eqn:Es.
+    + destruct (si_snap _ (r_si _ _ HR) Es). unfold sp_last in *. lia.
+    + destruct (r_lr _ _ HR) as (_ & _ & _ & _ & A); [unfold rd_ok; rewrite Es; reflexivity|].
+      apply A. pose proof (cover_ge_saved _ (r_si _ _ HR)). pose proof (cover_le_last _ (r_si _ _ HR)). lia.
+  - rewrite <- E. apply (f_last_entry _ _ HR). congruence.
+Qed.
+
+Lemma sp_term_out sp i : SI sp -> (i < sp_mi sp \/ sp_last sp < i) -> sp_term sp i = 0.
+Proof.
+  intros HS H. unfold sp_term. destruct (i =? sp_mi sp) eqn:E.
+  - destruct H; [lia|]. unfold sp_last in H. lia.
+  - destruct (sp_get sp i) eqn:G; auto. apply (sp_get_some _ _ _ HS) in G. lia.
+Qed.
+
+(* reading one persisted entry through the reader *)
+Lemma st_iter_one st i e m sz : st_get st i = Some e -> m < sz + esize e ->
+  st_iter 1 st i sz m = ([e], sz + esize e).
+Proof. intros G H. cbn [st_iter]. rewrite G. destruct (m <? sz + esize e) eqn:E; [reflexivity|lia]. Qed.
+
+Lemma v_lr_term w sp i : R w sp -> rd_ok sp = true -> sp_mi sp <= i -> i <= cover sp ->
+  lr_term (w_lr w) (w_st w) i = Ok (sp_term sp i).
+Proof.
+  intros HR Hok H1 H2. destruct (r_lr _ _ HR Hok) as (A & B & C & D & _).
+  unfold lr_term, sp_term. rewrite A. destruct (i =? sp_mi sp) eqn:E; [congruence|].
+  assert (Hi : sp_mi sp < i) by lia.
+  pose proof (cover_le_last _ (r_si _ _ HR)) as CL.
+  destruct (sp_get_in sp i (r_si _ _ HR) Hi) as [e Ge]; [lia|].
+  pose proof (r_st _ _ HR i Hi H2) as Gs. rewrite Ge in Gs.
+  pose proof (r_stmax _ _ HR) as SM.
+  unfold lr_entries_locked. rewrite A.
+  destruct (i + 1 <? i) eqn:E1; [lia|]. destruct (i <=? sp_mi sp) eqn:E2; [lia|].
+  destruct (lr_last (w_lr w) + 1 <? i + 1) eqn:E3; [lia|].
+  unfold st_iterate. replace (N.to_nat (N.min (i + 1) (st_max (w_st w) + 1) - i)) with 1%nat by lia.
+  rewrite (st_iter_one _ _ e) by (auto; pose proof (esize_pos e); lia).
+  destruct ((nlen [e] =? i + 1 - i) || (0 <? 0 + esize e)) eqn:Ec.
+  2:{ unfold nlen in Ec. cbn [length] in Ec. lia. }
+  cbn [bind fst]. rewrite Ge. reflexivity.
+Qed.
+
+Lemma v_term w sp i : R w sp -> el_term (w_el w) (w_lr w) (w_st w) i = Ok (sp_term sp i).
+Proof.
+  intros HR. pose proof (r_si _ _ HR) as HS. unfold el_term. rewrite (v_first _ _ HR), (v_last _ _ HR). unfold sp_first.
+  destruct ((i <? sp_mi sp + 1 - 1) || (sp_last sp <? i)) eqn:E0.
+  - rewrite sp_term_out; auto. lia.
+  - assert (H1 : sp_mi sp <= i) by lia. assert (H2 : i <= sp_last sp) by lia.
+    unfold im_get_term.
+    destruct ((0 <? i) && (i =? im_aidx (el_im (w_el w)))) eqn:E1.
+    + assert (i = im_aidx (el_im (w_el w))) by lia. subst i.
+      destruct (r_a2 _ _ HR) as (A & B); [lia|auto|].
+      destruct (im_aterm (el_im (w_el w)) =? 0) eqn:E2; [lia|]. cbn [bind]. congruence.
+    + destruct (i <? im_marker (el_im (w_el w))) eqn:E2.
+      * rewrite (r_snap _ _ HR). destruct (sp_snap sp) eqn:Es.
+        -- destruct (si_snap _ HS Es). pose proof (r_m2 _ _ HR). assert (i = sp_mi sp) by lia. subst i.
+           rewrite N.eqb_refl. cbn [bind]. unfold sp_term. rewrite N.eqb_refl. reflexivity.
+        -- cbn [bind]. apply v_lr_term; auto. { unfold rd_ok. rewrite Es. reflexivity. }
+           pose proof (r_m2 _ _ HR). pose proof (cover_ge_saved _ HS). lia.
+      * assert (HM : im_marker (el_im (w_el w)) <= i) by lia.
+        unfold im_last_index. destruct (im_ents (el_im (w_el w))) eqn:En.
+        { pose proof (f_nil _ _ HR En). lia. }
+        rewrite <- En. rewrite (f_last_entry _ _ HR) by congruence.
+        destruct (i <=? sp_last sp) eqn:E3; [|lia].
+        rewrite (f_get _ _ HR i HM). pose proof (r_m1 _ _ HR).
+        destruct (sp_get_in sp i HS) as [e' Ge]; [lia|lia|]. rewrite Ge. cbn [bind].
+        unfold sp_term. destruct (i =? sp_mi sp) eqn:E4; [lia|]. rewrite Ge. reflexivity.
+Qed.
+
+(* ---- size limits: the store's iteration + LogReader's drop rule = limitSize ---- *)
+Fixpoint iter_list (A : list entry) (size m : N) : list entry * N :=
+  match A with
+  | [] => ([], size)
+  | e :: r => let s' := size + esize e in
+              if m <? s' then ([e], s') else let '(r', sz) := iter_list r s' m in (e :: r', sz)
+  end.
+
+Lemma st_iter_list A : forall st i size m,
+  (forall k, (k < length A)%nat -> st_get st (i + N.of_nat k) = nth_error A k) ->
+  st_iter (length A) st i size m = iter_list A size m.
+Proof.
+  induction A as [|e A IH]; intros st i size m H; [reflexivity|].
+  cbn [length st_iter iter_list]. pose proof (H 0%nat) as H0. cbn [nth_error] in H0.
+  rewrite N.add_0_r in H0. rewrite H0 by (cbn; lia).
+  destruct (m <? size + esize e); [reflexivity|].
+  rewrite IH; [reflexivity|]. intros k Hk. specialize (H (S k)). cbn [nth_error] in H.
+  rewrite <- H by (cbn; lia). f_equal. lia.
+Qed.
+
+Lemma limit_rest_len t m A : (length (limit_rest t m A) <= length A)%nat.
+Proof.
+  revert t. induction A as [|e A IH]; intros t; cbn; [lia|].
+  destruct (m <? t + esize e); cbn; [lia|]. specialize (IH (t + esize e)). lia.
+Qed.
+Lemma limit_rest_full t m A : length (limit_rest t m A) = length A -> limit_rest t m A = A.
+Proof.
+  revert t. induction A as [|e A IH]; intros t; cbn; auto.
+  destruct (m <? t + esize e); cbn; [lia|]. intros H. f_equal. apply IH. lia.
+Qed.
+Lemma limit_rest_app_short t m A B : length (limit_rest t m A) <> length A ->
+  limit_rest t m (A ++ B) = limit_rest t m A.
+Proof.
+  revert t. induction A as [|e A IH]; intros t; cbn; [congruence|].
+  destruct (m <? t + esize e); cbn; auto. intros H. f_equal. apply IH. lia.
+Qed.
+Lemma limit_size_len A m : (length (limit_size A m) <= length A)%nat.
+Proof. destruct A; cbn; [lia|]. pose proof (limit_rest_len (esize e) m A). lia. Qed.
+Lemma limit_size_full A m : length (limit_size A m) = length A -> limit_size A m = A.
+Proof. destruct A; cbn; auto. intros H. f_equal. apply limit_rest_full. lia. Qed.
+Lemma limit_size_app_short A B m : length (limit_size A m) <> length A ->
+  limit_size (A ++ B) m = limit_size A m.
+Proof. destruct A; cbn; [congruence|]. intros H. f_equal. apply limit_rest_app_short. lia. Qed.
+
+Definition lr_drop (m : N) (r : list entry * N) : list entry :=
+  let '(ents, size) := r in
+  if (0 <? m) && (m <? size) && (1 <? nlen ents) then removelast ents
+  else if (m =? 0) && (m <? size) && (1 <? nlen ents) then firstn 1 ents
+  else ents.
+
+Lemma iter_rest r : forall total m, total <= m ->
+  let '(r', sz) := iter_list r total m in
+  total <= sz /\
+  (m < sz -> r' <> [] /\ removelast r' = limit_rest total m r) /\
+  (sz <= m -> r' = r /\ limit_rest total m r = r).
+Proof.
+  induction r as [|e r IH]; intros total m Hle; cbn [iter_list limit_rest].
+  - repeat split; auto; lia.
+  - destruct (m <? total + esize e) eqn:E.
+    + repeat split; try lia; try congruence.
+    + specialize (IH (total + esize e) m). destruct (iter_list r (total + esize e) m) as [r' sz].
+      destruct IH as (A & B & C); [lia|]. pose proof (esize_pos e). repeat split; try lia.
+      * congruence.
+      * destruct (B H0) as (B1 & B2). destruct r'; [congruence|]. cbn [removelast]. f_equal. exact B2.
+      * destruct (C H0). congruence.
+      * destruct (C H0). congruence.
+Qed.
+
+Lemma lr_drop_single m e s : lr_drop m ([e], s) = [e].
+Proof.
+  unfold lr_drop, nlen. cbn [length]. change (1 <? N.of_nat 1) with false.
+  rewrite !andb_false_r. reflexivity.
+Qed.
+Lemma lr_drop_nolimit m l s : s <= m -> lr_drop m (l, s) = l.
+Proof.
+  intros H. unfold lr_drop. replace (m <? s) with false by lia.
+  rewrite !andb_false_r. reflexivity.
+Qed.
+Lemma iter_limit A m : A <> [] ->
+  lr_drop m (iter_list A 0 m) = limit_size A m /\
+  (length (fst (iter_list A 0 m)) = length A \/ m < snd (iter_list A 0 m)).
+Proof.
+  destruct A as [|e r]; [congruence|]. intros _. cbn [iter_list limit_size]. pose proof (esize_pos e) as Hp.
+  rewrite N.add_0_l. destruct (m <? esize e) eqn:E.
+  - rewrite lr_drop_single. cbn [fst snd length]. split; [|right; lia].
+    f_equal. destruct r; cbn [limit_rest]; auto. destruct (m <? esize e + esize e0) eqn:E2; auto. pose proof (esize_pos e0). lia.
+  - pose proof (iter_rest r (esize e) m) as H. destruct (iter_list r (esize e) m) as [r' sz].
+    destruct H as (A & B & C); [lia|]. cbn [fst snd]. destruct (m <? sz) eqn:E3.
+    + destruct B as (B1 & B2); [lia|]. split; [|right; lia].
+      unfold lr_drop. assert (Hm : 0 <? m = true) by lia. rewrite Hm, E3.
+      assert (Hl : 1 <? nlen (e :: r') = true) by (destruct r'; [congruence|]; rewrite !nlen_cons; lia).
+      rewrite Hl. cbn [andb]. destruct r'; [congruence|]. cbn [removelast]. f_equal. exact B2.
+    + destruct C as (C1 & C2); [lia|]. subst r'. split; [|left; reflexivity].
+      rewrite lr_drop_nolimit by lia. f_equal. auto.
+Qed.
+
+(* ---- slices of the logical log ---- *)
+Lemma skipn_skipn {A} x y (l : list A) : skipn x (skipn y l) = skipn (x + y) l.
+Proof.
+  revert x l. induction y; intros x l; [rewrite Nat.add_0_r; reflexivity|].
+  destruct l; [rewrite !skipn_nil; reflexivity|]. rewrite Nat.add_succ_r. cbn [skipn]. apply IHy.
+Qed.
+Lemma firstn_add {A} a b (l : list A) : firstn (a + b) l = firstn a l ++ firstn b (skipn a l).
+Proof. revert l. induction a; intros l; cbn; auto. destruct l; cbn; [destruct b; reflexivity|]. f_equal. apply IHa. Qed.
+
+Lemma slice_len sp lo hi : sp_mi sp < lo -> lo <= hi -> hi <= sp_last sp + 1 ->
+  length (sp_slice sp lo hi) = N.to_nat (hi - lo).
+Proof.
+  intros H1 H2 H3. unfold sp_slice. rewrite firstn_length, skipn_length. unfold sp_last, nlen in H3. lia.
+Qed.
+
+Lemma slice_nth sp lo hi k : sp_mi sp < lo -> (k < N.to_nat (hi - lo))%nat ->
+  nth_error (sp_slice sp lo hi) k = sp_get sp (lo + N.of_nat k).
+Proof.
+  intros H1 H2. unfold sp_slice, sp_get. rewrite nth_error_firstn_lt by auto. rewrite nth_error_skipn.
+  destruct (lo + N.of_nat k <=? sp_mi sp) eqn:E; [lia|]. f_equal. lia.
+Qed.
+
+Lemma slice_split sp lo up hi : sp_mi sp < lo -> lo <= up -> up <= hi ->
+  sp_slice sp lo hi = sp_slice sp lo up ++ sp_slice sp up hi.
+Proof.
+  intros H1 H2 H3. unfold sp_slice.
+  replace (N.to_nat (hi - lo)) with (N.to_nat (up - lo) + N.to_nat (hi - up))%nat by lia.
+  rewrite firstn_add. f_equal. f_equal. rewrite skipn_skipn. f_equal. lia.
+Qed.
+
+Lemma slice_log sp lo hi : SI sp -> sp_mi sp < lo -> log_ok lo (sp_slice sp lo hi).
+Proof.
+  intros HS H1. unfold sp_slice. apply log_ok_firstn.
+  replace lo with (sp_mi sp + 1 + N.of_nat (N.to_nat (lo - sp_mi sp - 1))) at 1 by lia.
+  apply log_ok_skipn. apply (si_log _ HS).
+Qed.
+
+Lemma check_append_ok b A B : log_ok b (A ++ B) -> check_entries_to_append A B = None.
+Proof.
+  intros H. unfold check_entries_to_append. destruct A as [|a A']; [reflexivity|]. destruct B as [|x B']; [reflexivity|].
+  set (A := a :: A') in *. assert (Hne : A <> []) by (subst A; congruence).
+  pose proof (last_entry_nth A Hne) as HL.
+  assert (H1 : nth_error (A ++ x :: B') (length A - 1) = Some (last_entry A)).
+  { rewrite nth_error_app1; auto. subst A. cbn. lia. }
+  assert (H2 : nth_error (A ++ x :: B') (length A) = Some x).
+  { rewrite nth_error_app2 by lia. rewrite Nat.sub_diag. reflexivity. }
+  destruct (H _ _ H1) as (I1 & _ & M). destruct (H _ _ H2) as (I2 & _).
+  specialize (M (length A) x). assert (length A >= 1)%nat by (subst A; cbn; lia).
+  destruct (e_index (last_entry A) + 1 =? e_index x) eqn:E1; cbn [negb]; [|lia].
+  destruct (e_term x <? e_term (last_entry A)) eqn:E2; [|reflexivity].
+  assert (e_term (last_entry A) <= e_term x) by (apply M; auto; lia). lia.
+Qed.
+
+(* entries [lo, up) served by the reader from the store *)
+Lemma v_lr_entries w sp lo up m : R w sp -> rd_ok sp = true ->
+  sp_mi sp < lo -> lo < up -> up <= cover sp + 1 ->
+  lr_entries (w_lr w) (w_st w) lo up m = Ok (limit_size (sp_slice sp lo up) m).
+Proof.
+  intros HR Hok H1 H2 H3. pose proof (r_si _ _ HR) as HS.
+  destruct (r_lr _ _ HR Hok) as (A & B & C & D & _).
+  pose proof (cover_le_last _ HS) as CL.
+  unfold lr_entries, lr_entries_locked. rewrite A.
+  destruct (up <? lo) eqn:E1; [lia|]. destruct (lo <=? sp_mi sp) eqn:E2; [lia|].
+  destruct (lr_last (w_lr w) + 1 <? up) eqn:E3; [lia|].
+  unfold st_iterate. pose proof (r_stmax _ _ HR) as SM.
+  replace (N.min up (st_max (w_st w) + 1)) with up by lia.
+  set (S := sp_slice sp lo up).
+  assert (HL : length S = N.to_nat (up - lo)) by (apply slice_len; lia).
+  rewrite <- HL. rewrite (st_iter_list S).
+  2:{ intros k Hk. unfold S. rewrite slice_nth by lia. apply (r_st _ _ HR); lia. }
+  assert (Hne : S <> []) by (destruct S; cbn in HL; [lia|congruence]).
+  destruct (iter_limit S m Hne) as (IL1 & IL2).
+  destruct (iter_list S 0 m) as [B' sz] eqn:EI. cbn [fst snd] in IL2.
+  assert (Hc : (nlen B' =? up - lo) || (m <? sz) = true).
+  { apply orb_true_iff. destruct IL2 as [IL2|IL2]; [left; unfold nlen; lia|right; lia]. }
+  rewrite Hc. cbn [bind]. unfold lr_drop in IL1. 
+  destruct ((0 <? m) && (m <? sz) && (1 <? nlen B')); [congruence|].
+  destruct ((m =? 0) && (m <? sz) && (1 <? nlen B')); congruence.
+Qed.
+
+(* entries [lo, hi) taken from the in-memory window *)
+Lemma v_im_entries w sp lo hi : R w sp ->
+  im_marker (el_im (w_el w)) <= lo -> lo <= hi -> hi <= sp_last sp + 1 ->
+  im_get_entries (el_im (w_el w)) lo hi = Ok (sp_slice sp lo hi).
+Proof.
+  intros HR H1 H2 H3. unfold im_get_entries. rewrite (f_len _ _ HR).
+  destruct ((hi <? lo) || (lo <? im_marker (el_im (w_el w)))) eqn:E1; [lia|].
+  destruct (sp_last sp + 1 <? hi) eqn:E2; [lia|].
+  f_equal. unfold sp_slice. f_equal. rewrite (r_ents _ _ HR). rewrite skipn_skipn. f_equal.
+  pose proof (r_m1 _ _ HR). lia.
+Qed.
+
+Lemma is_nil_skipn0 {A} (l : list A) : skipn 0 l = l. Proof. reflexivity. Qed.
+
+Theorem v_entries w sp lo hi m : R w sp ->
+  el_get_entries (w_el w) (w_lr w) (w_st w) lo hi m = sp_entries sp lo hi m.
+Proof.
+  intros HR. pose proof (r_si _ _ HR) as HS. unfold el_get_entries, sp_entries, el_check_bound.
+  destruct (hi <? lo) eqn:E0; [reflexivity|].
+  rewrite (r_snap _ _ HR), (v_first _ _ HR), (v_last _ _ HR).
+  assert (Hnil : sp_snap sp = true -> im_ents (el_im (w_el w)) = sp_ents sp).
+  { intros Es. destruct (si_snap _ HS Es). rewrite (r_ents _ _ HR).
+    pose proof (r_m1 _ _ HR). pose proof (r_m2 _ _ HR).
+    replace (N.to_nat (im_marker (el_im (w_el w)) - sp_mi sp - 1)) with 0%nat by lia. reflexivity. }
+  destruct (sp_snap sp) eqn:Es.
+  - rewrite (Hnil eq_refl). cbn [andb]. destruct (is_nil (sp_ents sp)) eqn:En; [reflexivity|].
+    destruct (lo <? sp_first sp) eqn:E1; [reflexivity|]. destruct (sp_last sp + 1 <? hi) eqn:E2; [reflexivity|].
+    cbn [bind]. destruct (lo =? hi) eqn:E3; [reflexivity|].
+    destruct (si_snap _ HS Es). pose proof (r_m1 _ _ HR). pose proof (r_m2 _ _ HR). unfold sp_first in *.
+    unfold el_from_logdb. destruct (im_marker (el_im (w_el w)) <=? lo) eqn:E4; [|lia]. cbn [bind negb].
+    unfold el_from_inmem. destruct (hi <=? im_marker (el_im (w_el w))) eqn:E5; [lia|].
+    replace (N.max lo (im_marker (el_im (w_el w)))) with lo by lia.
+    rewrite (v_im_entries _ _ _ _ HR) by lia. cbn [bind].
+    destruct (sp_slice sp lo hi); reflexivity.
+  - cbn [andb]. destruct (lo <? sp_first sp) eqn:E1; [reflexivity|]. destruct (sp_last sp + 1 <? hi) eqn:E2; [reflexivity|].
+    cbn [bind]. destruct (lo =? hi) eqn:E3; [reflexivity|]. unfold sp_first in *.
+    pose proof (r_m1 _ _ HR) as M1. pose proof (r_m2 _ _ HR) as M2.
+    assert (Hok : rd_ok sp = true) by (unfold rd_ok; rewrite Es; reflexivity).
+    unfold el_from_logdb. destruct (im_marker (el_im (w_el w)) <=? lo) eqn:E4.
+    + cbn [bind negb]. unfold el_from_inmem. destruct (hi <=? im_marker (el_im (w_el w))) eqn:E5; [lia|].
+      replace (N.max lo (im_marker (el_im (w_el w)))) with lo by lia.
+      rewrite (v_im_entries _ _ _ _ HR) by lia. cbn [bind]. destruct (sp_slice sp lo hi); reflexivity.
+    + set (up := N.min hi (im_marker (el_im (w_el w)))).
+      pose proof (cover_ge_saved _ HS) as CG.
+      rewrite (v_lr_entries _ _ lo up m HR Hok) by (unfold up; lia). cbn [bind].
+      set (A := sp_slice sp lo up).
+      assert (HL : length A = N.to_nat (up - lo)) by (apply slice_len; unfold up; lia).
+      pose proof (limit_size_len A m) as LL.
+      destruct (up - lo <? nlen (limit_size A m)) eqn:E5; [unfold nlen in E5; lia|].
+      cbn [bind]. assert (Hsplit : sp_slice sp lo hi = A ++ sp_slice sp up hi) by (apply slice_split; unfold up; lia).
+      destruct (nlen (limit_size A m) =? up - lo) eqn:E6; cbn [negb].
+      * assert (Hfull : limit_size A m = A) by (apply limit_size_full; unfold nlen in E6; lia).
+        rewrite Hfull. unfold el_from_inmem. destruct (hi <=? im_marker (el_im (w_el w))) eqn:E7.
+        -- cbn [bind]. assert (up = hi) by (unfold up; lia). rewrite Hsplit. 
+           replace (sp_slice sp up hi) with (@nil entry). { rewrite app_nil_r. rewrite Hfull. reflexivity. }
+           unfold sp_slice. replace (N.to_nat (hi - up)) with 0%nat by lia. reflexivity.
+        -- replace (N.max lo (im_marker (el_im (w_el w)))) with up by (unfold up; lia).
+           rewrite (v_im_entries _ _ _ _ HR) by (unfold up; lia). cbn [bind].
+           destruct (sp_slice sp up hi) as [|b B] eqn:EB.
+           { cbn [bind]. rewrite Hsplit, app_nil_r. reflexivity. }
+           destruct A as [|a A'] eqn:EA; [cbn in HL; unfold up in HL; lia|].
+           rewrite <- EA in *. rewrite (check_append_ok lo A (b :: B)).
+           2:{ rewrite <- Hsplit. apply slice_log; auto. lia. }
+           rewrite Hsplit. reflexivity.
+      * rewrite Hsplit. rewrite limit_size_app_short; [reflexivity|]. unfold nlen in E6. lia.
+Qed.
+
+Lemma v_to_save w sp : R w sp -> el_to_save (w_el w) = sp_to_save sp.
+Proof.
+  intros HR. unfold el_to_save, im_entries_to_save, sp_to_save, two64.
+  pose proof (r_m1 _ _ HR) as M1. pose proof (r_m2 _ _ HR) as M2. pose proof (r_s _ _ HR) as S.
+  pose proof (si_sl _ (r_si _ _ HR)) as SL. pose proof (si_max _ (r_si _ _ HR)) as MX. unfold max_index in MX.
+  pose proof (f_len _ _ HR) as FL. rewrite S.
+  assert (2 ^ 62 < 2 ^ 64) by (apply N.pow_lt_mono_r; lia).
+  replace ((sp_saved sp + 1 + 2 ^ 64 - im_marker (el_im (w_el w))) mod 2 ^ 64)
+    with (sp_saved sp + 1 - im_marker (el_im (w_el w))).
+  2:{ replace (sp_saved sp + 1 + 2 ^ 64 - im_marker (el_im (w_el w)))
+        with ((sp_saved sp + 1 - im_marker (el_im (w_el w))) + 1 * 2 ^ 64) by lia.
+      rewrite N.mod_add by lia. rewrite N.mod_small; lia. }
+  destruct (nlen (im_ents (el_im (w_el w))) <? sp_saved sp + 1 - im_marker (el_im (w_el w))) eqn:E; [lia|].
+  rewrite (r_ents _ _ HR), skipn_skipn. f_equal. lia.
+Qed.
+
+Lemma v_has w sp : R w sp -> el_has_to_apply (w_el w) (w_lr w) = sp_has_to_apply sp.
+Proof.
+  intros HR. unfold el_has_to_apply, sp_has_to_apply, el_first_not_applied, sp_first_not_applied.
+  rewrite (v_first _ _ HR), (r_p _ _ HR), (r_c _ _ HR). reflexivity.
+Qed.
+
+Lemma v_to_apply w sp limit : R w sp ->
+  el_to_apply (w_el w) (w_lr w) (w_st w) limit = sp_to_apply sp limit.
+Proof.
+  intros HR. unfold el_to_apply, sp_to_apply. rewrite (v_has _ _ HR).
+  destruct (sp_has_to_apply sp); [|reflexivity].
+  unfold el_first_not_applied, sp_first_not_applied.
+  rewrite (v_first _ _ HR), (r_p _ _ HR), (r_c _ _ HR). apply v_entries. exact HR.
+Qed.
+
+(* all the views at once *)
+Definition views_eq (w : world) (sp : spec) : Prop :=
+  el_first (w_el w) (w_lr w) = sp_first sp /\
+  el_last (w_el w) (w_lr w) = sp_last sp /\
+  (forall i, el_term (w_el w) (w_lr w) (w_st w) i = Ok (sp_term sp i)) /\
+  (forall lo hi m, el_get_entries (w_el w) (w_lr w) (w_st w) lo hi m = sp_entries sp lo hi m) /\
+  el_to_save (w_el w) = sp_to_save sp /\
+  (forall limit, el_to_apply (w_el w) (w_lr w) (w_st w) limit = sp_to_apply sp limit) /\
+  el_has_to_apply (w_el w) (w_lr w) = sp_has_to_apply sp /\
+  el_committed (w_el w) = sp_committed sp /\ el_processed (w_el w) = sp_processed sp.
+
+Lemma R_views w sp : R w sp -> views_eq w sp.
+Proof.
+  intros HR. unfold views_eq. repeat split.
+  - apply v_first; auto.
+  - apply v_last; auto.
+  - intros; apply v_term; auto.
+  - intros; apply v_entries; auto.
+  - apply v_to_save; auto.
+  - intros; apply v_to_apply; auto.
+  - apply v_has; auto.
+  - apply (r_c _ _ HR).
+  - apply (r_p _ _ HR).
+Qed.
